@@ -23,6 +23,17 @@ PROPERTY_ASSUMPTIONS = {}
 
 NOSTD = "encoder,xz,lzip,optimization"   # no_std build: crate-local Read/Write/Error (no io::Error drop glue)
 
+# harness files that refer to items of other harness files (injected together automatically)
+FILE_DEPS = {
+    "xz/writer.rs": ["xz/reader.rs", "xz.rs", "enc/lzma2_writer.rs"],
+    "xz/reader.rs": ["xz.rs"],
+    "lzip/writer.rs": ["lzip.rs", "enc/lzma_writer.rs", "enc/lzma2_writer.rs"],
+    "enc/lzma_writer.rs": ["enc/lzma2_writer.rs"],
+    "enc/range_enc.rs": ["range_dec.rs"],
+    "filter/bcj/arm.rs": ["filter/bcj.rs"], "filter/bcj/ppc.rs": ["filter/bcj.rs"], "filter/bcj/sparc.rs": ["filter/bcj.rs"],
+    "filter/bcj/x86.rs": ["filter/bcj.rs"], "filter/bcj/ia64.rs": ["filter/bcj.rs"], "filter/bcj/riscv.rs": ["filter/bcj.rs"],
+}
+
 UNITS = []
 
 
@@ -233,3 +244,31 @@ U(id="C01.l2.hdr.r", props=["C01", "C03", "C04", "C06", "C16", "C05"], file="lzm
 U(id="C17.dec.lzma2", props=["C17", "C06"], file="lzma2_reader.rs", harnesses=["c17_lzma2_memory_usage"], stubs=[],
   functions=[("src/lzma2_reader.rs", "get_dict_size"), ("src/lzma2_reader.rs", "get_memory_usage")],
   contract="forall dict_size:u32: no overflow; rounded dictionary is a multiple of 16 covering dict_size; estimate >= dictionary + 64 KiB chunk buffer and within 104 KiB of it")
+
+U(id="C02.lzip.hist", props=["C02", "C18", "C03", "C07"], file="lzip/writer.rs",
+  harnesses=["c02_lzip_hist_n4101"], thorough_harnesses=["c02_lzip_hist_n10", "c02_lzip_hist_n8193"],
+  contract_stubs=PAYLOAD_LZMA_W, kind="bounded", bound="concrete histories: one write of 10 / 4101 / 8193 position-dependent bytes then finish; member size = dict = 4096",
+  functions=[("src/lzip/writer.rs", "write", "Write for LZIPWriter"), ("src/lzip/writer.rs", "new", "LZIPWriter"), ("src/lzip/writer.rs", "start_new_member"),
+             ("src/lzip/writer.rs", "finish_current_member"), ("src/lzip/writer.rs", "finish", "LZIPWriter"), ("src/lzip/writer.rs", "should_finish_member"),
+             ("src/enc/lzma_writer.rs", "write", "Write for LZMAWriter")],
+  contract="members partition the input in order, each <= member size and full except the last; each member = LZIP header(dict byte) | payload | crc32(member data) | data size | member size=6+payload+20")
+
+
+# ---------------------------------------------------------------------------------------- quick-tier budget
+# Harnesses kept in the quick tier per unit; every other harness of the unit runs in the thorough tier only.
+QUICK_ONLY = {
+    "C02.xz.index": ["c02_xz_index_footer_n0_1_1", "c02_xz_index_footer_n1_2_1", "c02_xz_index_footer_n1_9_9"],
+    "C02.xz.index.r": ["c02_xz_index_parse_n0_1_1", "c02_xz_index_parse_n1_2_3", "c02_xz_index_parse_n1_9_9"],
+    "C04.xz.block": ["c04_xz_block_end_none_p3", "c04_xz_block_end_crc32_p1", "c04_xz_block_end_crc64_p0"],
+    "C11.group.x86": ["c11_bcj_x86_short"],
+    "C07.bcj.code.x86": ["c07_bcj_x86_split_k5_dec"],
+    "C07.bcj.code.riscv": ["c07_bcj_riscv_split_k10_dec"],
+    "C07.bcj.code.thumb": ["c07_bcj_thumb_split_k5_dec", "c07_bcj_thumb_split_k6_enc"],
+}
+for _u in UNITS:
+    if _u["id"] in QUICK_ONLY:
+        keep = QUICK_ONLY[_u["id"]]
+        allh = _u["harnesses"] + _u.get("thorough_harnesses", [])
+        assert all(k in allh for k in keep), (_u["id"], keep)
+        _u["harnesses"] = keep
+        _u["thorough_harnesses"] = [h for h in allh if h not in keep]
